@@ -26,6 +26,11 @@ fn call(name: &str, args: Vec<ExprOrSpread>) -> Expr {
     Expr::Call(CallExpr { span: DUMMY_SP, ctxt: SyntaxContext::empty(), callee: s_member(name), args, type_args: None })
 }
 fn thunk(e: Expr) -> Expr {
+    // an object literal as arrow body must be parenthesised, otherwise it prints as an empty block
+    let e = match e {
+        Expr::Object(_) => Expr::Paren(ParenExpr { span: DUMMY_SP, expr: Box::new(e) }),
+        other => other,
+    };
     Expr::Arrow(ArrowExpr {
         span: DUMMY_SP,
         ctxt: SyntaxContext::empty(),
@@ -161,6 +166,18 @@ impl VisitMut for Instr {
                         }
                     }
                     _ => {}
+                }
+                return;
+            }
+            Expr::Unary(u) if u.op == UnaryOp::Delete => {
+                // `delete o[k]` must keep its member operand: only the object and key expressions are instrumented
+                if let Expr::Member(m) = &mut *u.arg {
+                    m.obj.visit_mut_with(self);
+                    if let MemberProp::Computed(cp) = &mut m.prop {
+                        cp.expr.visit_mut_with(self);
+                    }
+                } else {
+                    u.arg.visit_mut_with(self);
                 }
                 return;
             }
